@@ -21,11 +21,14 @@ use std::path::{Path, PathBuf};
 
 pub struct Surf {
     r: Rng,
+    /// render text nodes (plist strings and keys, glif notes) as CDATA sections: whole, split between text and
+    /// CDATA, next to an empty section.  Only switched on for the tagged inputs (`cd=`, `x=cdata-*`).
+    cdata: bool,
 }
 
 impl Surf {
     fn new(seed: u64) -> Self {
-        Surf { r: Rng::new(seed ^ 0x5f) }
+        Surf { r: Rng::new(seed ^ 0x5f), cdata: false }
     }
     fn ws(&mut self) -> &'static str {
         *self.r.pick(&[" ", " ", "  ", "\n", "\t", "\n  ", " \n"])
@@ -41,6 +44,22 @@ impl Surf {
         }
     }
     fn esc(&mut self, s: &str, quote: Option<char>) -> String {
+        if self.cdata && quote.is_none() && !s.contains("]]>") && self.r.chance(2, 3) {
+            self.cdata = false;
+            let cs: Vec<char> = s.chars().collect();
+            let k = cs.len() / 2;
+            let (a, b): (String, String) = (cs[..k].iter().collect(), cs[k..].iter().collect());
+            let out = match self.r.below(4) {
+                // the whole text literal
+                0 | 1 => format!("<![CDATA[{}]]>", s),
+                // text, then the rest as CDATA
+                2 => format!("{}<![CDATA[{}]]>", self.esc(&a, None), b),
+                // an empty section next to ordinary text (says the same as the text alone)
+                _ => format!("<![CDATA[]]>{}", self.esc(s, None)),
+            };
+            self.cdata = true;
+            return out;
+        }
         let mut o = String::new();
         for c in s.chars() {
             match c {
@@ -253,6 +272,11 @@ fn guideline_attrs(g: &norad::Guideline, s: &mut Surf) -> Vec<(String, String)> 
 /// an independent glif writer: every element from the public getters, element order shuffled, random
 /// attribute order / quotes / blanks / character references / number spellings
 pub fn render_glif(g: &Glyph, format: u8, s: &mut Surf, variant: &str) -> Vec<u8> {
+    render_glif_cd(g, format, s, variant, "")
+}
+
+/// `cd`: "note" = the note as CDATA, "glyphlib" = the strings and keys of the lib as CDATA
+pub fn render_glif_cd(g: &Glyph, format: u8, s: &mut Surf, variant: &str, cd: &str) -> Vec<u8> {
     let mut o = s.prolog(false);
     let mut ga = vec![kv("name", g.name().to_string()), kv("format", format.to_string())];
     if format == 2 && s.r.chance(1, 3) {
@@ -287,10 +311,18 @@ pub fn render_glif(g: &Glyph, format: u8, s: &mut Surf, variant: &str) -> Vec<u8
     }
     match variant {
         "cdata-note" => parts.push("<note><![CDATA[kept & <verbatim>]]></note>".to_string()),
+        "cdata-note-padded" => parts.push(format!("<note><![CDATA[{}]]></note>", CDATA_PADDED)),
+        "cdata-note-empty" => parts.push("<note><![CDATA[]]></note>".to_string()),
+        "cdata-note-blank" => parts.push("<note><![CDATA[  \n ]]></note>".to_string()),
+        "cdata-note-mixed" => parts.push("<note>text <![CDATA[ cd & <x> ]]> more</note>".to_string()),
+        "cdata-note-twice" => parts.push("<note><![CDATA[one ]]><![CDATA[ two]]></note>".to_string()),
         "comment-note" => parts.push("<note>a<!-- c -->b</note>".to_string()),
         _ => {
             if let Some(n) = &g.note {
-                parts.push(format!("<note>{}{}{}</note>", s.ows(), s.esc(n, None), s.ows()));
+                s.cdata = cd == "note";
+                let body = s.esc(n, None);
+                s.cdata = false;
+                parts.push(format!("<note>{}{}{}</note>", s.ows(), body, s.ows()));
             }
         }
     }
@@ -455,10 +487,15 @@ pub fn render_glif(g: &Glyph, format: u8, s: &mut Surf, variant: &str) -> Vec<u8
     if variant == "lib-newline" {
         lib.insert("k".to_string(), Value::String("line1\nline2".to_string()));
     }
+    if variant == "cdata-lib" {
+        lib.insert("k".to_string(), Value::String(" in cdata ".to_string()));
+    }
     if !lib.is_empty() {
         let mut l = String::from("<lib>");
         l.push_str(s.ows());
+        s.cdata = cd == "glyphlib" || variant == "cdata-lib";
         render_value(&Value::Dictionary(lib), s, false, &mut l);
+        s.cdata = false;
         l.push_str(s.ows());
         l.push_str("</lib>");
         parts.push(l);
@@ -479,6 +516,9 @@ pub fn render_glif(g: &Glyph, format: u8, s: &mut Surf, variant: &str) -> Vec<u8
 }
 
 /// a glyph that a format-1 glif can express: no note / guidelines / image / identifiers; anchors are named
+/// a note laid out the way editors write CDATA notes: on its own lines, indented
+pub const CDATA_PADDED: &str = "\nfirst line of the note\n  second line, indented & with <specials>\n";
+
 pub fn mk_glyph_v1(name: &str, tok: &str) -> Glyph {
     let seed: u64 = tok.parse().unwrap();
     let mut r = Rng::new(seed ^ 0x71);
@@ -528,6 +568,11 @@ fn sval(s: &str) -> Value {
 /// writes the intended font as a UFO tree of the given format version, without using norad's writers
 /// (exception: the key/value table of fontinfo.plist comes from `plist::to_value(&FontInfo)`)
 pub fn render_ufo(spec: &Spec, version: u8, dl: usize, s: &mut Surf, dir: &Path) {
+    render_ufo_cd(spec, version, dl, s, dir, "")
+}
+
+/// `cd`: the part whose text nodes are rendered as CDATA sections: lib | fontinfo | layerlib | note | glyphlib
+pub fn render_ufo_cd(spec: &Spec, version: u8, dl: usize, s: &mut Surf, dir: &Path, cd: &str) {
     rm_rf(dir);
     std::fs::create_dir_all(dir).unwrap();
     let font = build(spec);
@@ -556,13 +601,17 @@ pub fn render_ufo(spec: &Spec, version: u8, dl: usize, s: &mut Surf, dir: &Path)
         lib.insert("public.objectLibs".into(), Value::Dictionary(olibs));
     }
     if !lib.is_empty() || s.r.chance(1, 8) {
+        s.cdata = cd == "lib";
         wr(&dir.join("lib.plist"), &render_plist(&Value::Dictionary(lib), s, false));
+        s.cdata = false;
     }
     // font info
     if version == 3 {
         if !font.font_info.is_empty() || s.r.chance(1, 8) {
             let v = plist::to_value(&font.font_info).unwrap();
+            s.cdata = cd == "fontinfo";
             wr(&dir.join("fontinfo.plist"), &render_plist(&v, s, true));
+            s.cdata = false;
         }
     } else {
         let mut d = Dictionary::new();
@@ -654,7 +703,7 @@ pub fn render_ufo(spec: &Spec, version: u8, dl: usize, s: &mut Surf, dir: &Path)
                 let tok = spec.layers[0].glyphs.iter().find(|(n, _)| n == g.name().as_str()).unwrap().1.clone();
                 render_glif(&mk_glyph_v1(g.name(), &tok), 1, s, "plain")
             } else {
-                render_glif(g, 2, s, "plain")
+                render_glif_cd(g, 2, s, "plain", cd)
             };
             wr(&ldir.join(&fname), &gl);
         }
@@ -667,7 +716,9 @@ pub fn render_ufo(spec: &Spec, version: u8, dl: usize, s: &mut Surf, dir: &Path)
             if !l.lib.is_empty() {
                 d.insert("lib".into(), Value::Dictionary(l.lib.clone()));
             }
+            s.cdata = cd == "layerlib";
             wr(&ldir.join("layerinfo.plist"), &render_plist(&Value::Dictionary(d), s, false));
+            s.cdata = false;
         }
     }
     if version == 3 {
@@ -809,6 +860,21 @@ fn observe_glif(xml: &[u8], intended: Option<&Glyph>) -> String {
         }
         None => "-",
     };
+    // the note of the first load, and whether everything but the note is as intended
+    let n1 = g1.note.as_ref().map(|n| hexs(n)).unwrap_or("~".to_string());
+    let ax = match intended {
+        Some(i) => {
+            let mut j = g1.clone();
+            j.note = i.note.clone();
+            if glyph_eq(i, &j) {
+                "1"
+            } else {
+                "0"
+            }
+        }
+        None => "-",
+    };
+    let a = format!("{} n1={} ax={}", a, n1, ax);
     let enc = match guarded(|| g1.encode_xml()) {
         Ok(Ok(b)) => b,
         Ok(Err(_)) => return format!("p1=ok a={} enc=err", a),
@@ -818,7 +884,14 @@ fn observe_glif(xml: &[u8], intended: Option<&Glyph>) -> String {
     let fmt = t.split("format=\"").nth(1).and_then(|x| x.split('"').next()).unwrap_or("?").to_string();
     let minor = if t.contains("formatMinor=") { "+minor" } else { "" };
     match guarded(|| Glyph::parse_raw(&enc)) {
-        Ok(Ok(g2)) => format!("p1=ok a={} enc=ok fmt={}{} p2=ok fix={}", a, fmt, minor, if glyph_eq(&g1, &g2) { 1 } else { 0 }),
+        Ok(Ok(g2)) => format!(
+            "p1=ok a={} enc=ok fmt={}{} p2=ok fix={} n2={}",
+            a,
+            fmt,
+            minor,
+            if glyph_eq(&g1, &g2) { 1 } else { 0 },
+            g2.note.as_ref().map(|n| hexs(n)).unwrap_or("~".to_string())
+        ),
         Ok(Err(_)) => format!("p1=ok a={} enc=ok fmt={}{} p2=err", a, fmt, minor),
         Err(_) => format!("p1=ok a={} enc=ok fmt={}{} p2=panic", a, fmt, minor),
     }
@@ -1317,7 +1390,8 @@ pub fn observe(toks: &[&str], scratch: &Path) -> String {
             let spec = parse_spec(&toks[4..]);
             let src = scratch.join("c04-in.ufo");
             let mut s = Surf::new(seed);
-            if let Err(m) = guarded(|| render_ufo(&spec, v, dl, &mut s, &src)) {
+            let cd = field(toks, "cd").to_string();
+            if let Err(m) = guarded(|| render_ufo_cd(&spec, v, dl, &mut s, &src, &cd)) {
                 return format!("render=panic:{}", hexs(&m));
             }
             let target = if field(toks, "t").is_empty() { "absent" } else { field(toks, "t") };
@@ -1343,6 +1417,14 @@ pub fn observe(toks: &[&str], scratch: &Path) -> String {
             // what the document says, for the rarely generated accepted-but-altered inputs
             match x {
                 "cdata-note" => intended.note = Some("kept & <verbatim>".to_string()),
+                "cdata-note-padded" => intended.note = Some(CDATA_PADDED.to_string()),
+                // an empty or blank note says "no note"
+                "cdata-note-empty" | "cdata-note-blank" => intended.note = None,
+                "cdata-note-mixed" => intended.note = Some("text  cd & <x>  more".to_string()),
+                "cdata-note-twice" => intended.note = Some("one  two".to_string()),
+                "cdata-lib" => {
+                    intended.lib.insert("k".to_string(), Value::String(" in cdata ".to_string()));
+                }
                 "comment-note" => intended.note = Some("ab".to_string()),
                 "width-1e400" => intended.width = f64::INFINITY,
                 "lib-newline" => {
@@ -1422,6 +1504,10 @@ pub fn emit_tree_case(rng: &mut Rng, i: usize, v3_edit_only: bool, out: &mut dyn
             format!("dl={}", dl),
         ];
         toks.push(format!("t={}", rng.pick(&["absent", "empty", "ufo", "ufo", "ufojunk", "partial", "junk"])));
+        // rarely, tagged: the text nodes of one part written as CDATA sections
+        if v == 3 && !edit && i % 12 == 5 {
+            toks.push(format!("cd={}", rng.pick(&["lib", "fontinfo", "layerlib", "note", "glyphlib"])));
+        }
         if edit {
             let mut ops = Vec::new();
             for _ in 0..1 + rng.below(4) {
@@ -1495,8 +1581,11 @@ pub fn gen(tier: &str, seed: u64, out: &mut dyn Write) {
     let m = if tier == "thorough" { 60_000 } else { 4_000 };
     for i in 0..m {
         let f = if rng.chance(1, 4) { 1 } else { 2 };
-        let x = if f == 2 && i % 97 == 5 {
-            *rng.pick(&["cdata-note", "comment-note", "width-1e400", "lib-newline"])
+        let x = if f == 2 && i % 47 == 5 {
+            *rng.pick(&[
+                "cdata-note", "comment-note", "width-1e400", "lib-newline", "cdata-note-padded", "cdata-note-empty",
+                "cdata-note-blank", "cdata-note-mixed", "cdata-note-twice", "cdata-lib",
+            ])
         } else {
             "plain"
         };
